@@ -385,7 +385,7 @@ CONTROLS += [
     pos("param_idx counts the wrong list", ["C01"], ["R1.6"],
         (P, "                        param_idx=len(params) - 1,", "                        param_idx=len(at_params),")),
     # ------------------------------------------------------------------ C02
-    pos("swap: rebinding moved above the try", ["C02"], ["R2.1", "R2.2"],
+    neg("swap: rebinding as the last statement before the try",
         (P, '''                old_lex = self.lex
                 try:
                     # set up a temporary token stream with the tokens we need to parse
@@ -395,6 +395,22 @@ CONTROLS += [
                 tmp_lex = lexer.BoundedTokenStream(raw_toks)
                 self.lex = tmp_lex
                 try:
+''')),
+    pos("swap: rebinding moved above the try with a parser call in between", ["C02"], ["R2.1", "R2.2"],
+        (P, '''                old_lex = self.lex
+                try:
+                    # set up a temporary token stream with the tokens we need to parse
+                    tmp_lex = lexer.BoundedTokenStream(raw_toks)
+                    self.lex = tmp_lex
+
+                    try:
+                        parsed_type, mods = self._parse_type(None)
+''', '''                old_lex = self.lex
+                tmp_lex = lexer.BoundedTokenStream(raw_toks)
+                self.lex = tmp_lex
+                parsed_type, mods = self._parse_type(None)
+                try:
+                    try:
 ''')),
     pos("types: pointer-to-reference guard deleted", ["C02"], ["R2.3"],
         (P, '''                if isinstance(dtype, (Reference, MoveReference)):
@@ -509,6 +525,33 @@ CONTROLS += [
 ''')),
     pos("access specifier keeps the pending doc text", ["C11"], ["R11.2"],
         (P, '''_keep_doxygen = {"__declspec", "alignas", "__attribute__", "DBL_LBRACKET"}''', '''_keep_doxygen = {"__declspec", "alignas", "__attribute__", "DBL_LBRACKET", "public"}''')),
+    pos("pending doc text not reset after an ambiguous declaration", ["C11"], ["R11.2"],
+        (P, """                    self._parse_declarations(tok, doxygen)
+                    doxygen = None
+""", """                    self._parse_declarations(tok, doxygen)
+""")),
+    pos("kept set compared against the dispatch table: everything with a handler keeps the doc text", ["C11"], ["R11.2"],
+        (P, """                    if tok.type not in _keep_doxygen:
+                        doxygen = None""", """                    if tok.type not in _translation_unit_tokens:
+                        doxygen = None""")),
+    neg("handler looked up with the declarations parser as default, one reset test for both",
+        (P, """                fn = _translation_unit_tokens.get(tok.type)
+                if fn:
+                    fn(tok, doxygen)
+
+                    if tok.type not in _keep_doxygen:
+                        doxygen = None
+                else:
+                    # this processes ambiguous declarations
+                    self._parse_declarations(tok, doxygen)
+                    doxygen = None
+""", """                fn = _translation_unit_tokens.get(tok.type, self._parse_declarations)
+                fn(tok, doxygen)
+                if tok.type not in _keep_doxygen:
+                    doxygen = None
+""")),
+    neg("kept set spelled as the attribute-introducer class constant",
+        (P, """_keep_doxygen = {"__declspec", "alignas", "__attribute__", "DBL_LBRACKET"}""", """_keep_doxygen = self._attribute_start_tokens""")),
     pos("trailing form used unguarded", ["C11"], ["R11.3"],
         (P, '''        if doxygen is None:
             # try checking after the var
